@@ -1,5 +1,19 @@
 import balance_common
 
+META = dict(
+    level="model_checking",
+    engine="Balance",
+    technique="same machinery as C08 with the balance/stickiness predicates of spec/BalanceOracle.tla; satisfiability of "
+              "balance+stickiness model-checked by TLC (Balance.stickysat.cfg)",
+    text="Same chains as C08; TLC evaluates RangeShape, RoundRobinFair, StickyBalanced, FixedPoint, KeepOnLeave, "
+         "NoShuffleOnJoin and NoPairwiseSwap on the plans of the real strategies, each only under its stated premise. "
+         "TLC also checks, for every balanced previous plan of the small space, that a next plan satisfying balance and the "
+         "stickiness clause exists, so a reported violation can never be an over-constrained oracle.",
+    note="bounded enumeration as C08; stickiness premises: identical subscriptions where the statement says so, previous "
+         "plan produced by the strategy itself and fed back with an increasing generation",
+    design_ref="6/C13",
+)
+
 
 def run(ctx):
     return balance_common.run(ctx, "C13", balance_common.C13)
